@@ -17,8 +17,8 @@ import tlsref
 from engine import Stage, Check, StageResult
 
 PID = "C03"
-REMOVING = {"delete", "cut_before", "cut_after", "keys_remove", "unknown_suite", "shorten", "foreign"}     # only remove information / add foreign traffic
-POSITION_FAULTS = ["delete", "cut_before", "cut_after", "flip", "overwrite", "shorten"]
+REMOVING = {"delete", "cut_before", "cut_after", "drop_prefix", "keys_remove", "unknown_suite", "shorten", "foreign"}     # only remove information / add foreign traffic
+POSITION_FAULTS = ["delete", "cut_before", "cut_after", "drop_prefix", "flip", "overwrite", "shorten"]
 
 
 def flow_seq(o, ep, proto):
@@ -50,6 +50,10 @@ def apply_fault(b, fault, rnd):
             pkts = pkts[:i]
         elif kind == "cut_after":
             pkts = pkts[:i + 1]
+        elif kind == "drop_prefix":
+            # the capture starts in the middle of the victim's connection: its packets up to and including this one are missing
+            gone = set(vic[:vic.index(i) + 1])
+            pkts = [q for j, q in enumerate(pkts) if j not in gone]
         else:
             q = p.copy()
             data = bytearray(q.payload)
@@ -545,7 +549,8 @@ def stages(tier):
 
 
 RULE = ("scenario = 1 victim (TLS any version/suite or QUIC) + 1-3 healthy bystanders; stage all-positions ENUMERATES, for each generated "
-        "scenario, every fault in {delete, cut before, cut after, flip bit, overwrite, shorten} at EVERY packet of the victim; stage "
+        "scenario, every fault in {delete, cut before, cut after, drop the victim's packets up to here (capture starts mid-connection), flip bit, overwrite, "
+        "shorten} at EVERY packet of the victim; stage "
         "all-key-subsets removes / randomises EVERY non-empty subset of the key-log lines of TLS 1.3, TLS 1.2 and QUIC victims; stage "
         "single-faults draws one fault from those plus {remove any subset of the victim's key-log lines, random secrets, unknown suite id in "
         "ServerHello, plain HTTP on a watched port, arbitrary/QUIC-shaped UDP payloads}; oracle: exit 0 without traceback, every bystander "
